@@ -141,7 +141,7 @@ Proof.
     assert (H3 : S (len - b_len (m_bb m2)) <= f) by (unfold m2; cbn [m_bb b_len]; lia).
     specialize (IH H1 HB2 H2 H3). cbn zeta in IH.
     destruct IH as (I1 & I2 & I3 & I4 & I5). repeat split; auto; try apply I2.
-    unfold m2 in I5. cbn [m_bb b_len] in I5. lia.
+    assert (HE : b_len (m_bb m2) = b_len (m_bb m) + length (chunk (b_len (m_bb m)))) by reflexivity. lia.
 Qed.
 
 (* ---------------------------------------------------------------- render_step *)
@@ -151,18 +151,19 @@ Proof.
   intros [HC HI] HP. unfold render_step. destruct rp.
   - (* reposition(true) *)
     destruct p as [q|]; [|discriminate HP]. cbn [pos_ok] in HP.
-    cbn [set_stream_buffer_position buffer_at_end_of_stream m_s]. unfold at_end_of_stream.
-    cbn [set_stream_position s_content s_pos]. rewrite HC. fold len. cbn [spec_step andb].
+    cbn [set_stream_buffer_position buffer_at_end_of_stream buffer_get_n_chars m_s m_bb].
+    unfold at_end_of_stream, get_n_chars, set_stream_position. cbn [s_content s_pos s_reads m_s m_bb].
+    rewrite HC. fold len. cbn [spec_step andb].
     destruct (len <=? q) eqn:E.
-    + eexists. split; [reflexivity|]. split; [exact HC|discriminate].
-    + cbn [buffer_get_n_chars m_s]. unfold get_n_chars. cbn [s_content s_pos s_reads]. rewrite HC. fold (chunk q).
-      eexists. split; [reflexivity|]. split; [exact HC|discriminate].
+    + eexists. split; [reflexivity|]. split; [reflexivity|discriminate].
+    + cbn [get_stream_buffer_position m_s s_pos fst snd]. fold (chunk q).
+      eexists. split; [reflexivity|]. split; [reflexivity|discriminate].
   - (* reposition(false) *)
     specialize (HI eq_refl). apply buffer_inv_binv in HI. destruct HI as (_ & HB & _).
     cbn [set_stream_buffer_position buffer_at_end_of_stream]. cbn [m_bb with_bpos b_pos].
     destruct p as [q|].
     2:{ cbn [spec_step fst snd]. eexists. split; [reflexivity|].
-        split; [exact HC|]. intros _. apply buffer_inv_binv. cbn [m_s m_bb with_bpos b_pos]. repeat split; auto. }
+        split; [exact HC|]. intros _. apply buffer_inv_binv. split; [exact HC|]. split; [exact HB|exact I]. }
     cbn [pos_ok] in HP. cbn [buffer_get_n_chars].
     set (m1 := mkM (m_s m) (with_bpos (m_bb m) (PNum q))).
     assert (HB1 : binv m1) by exact HB.
@@ -191,4 +192,734 @@ Proof.
       destruct P4 as [P4|P4]; [lia|]. destruct P2 as (_ & _ & _ & B4). rewrite (B4 P4). lia.
 Qed.
 
+(* ---------------------------------------------------------------- well-formed lazy lists *)
+Fixpoint wf_cells (rp : bool) (q : pos) (es : list (pos * list N)) (t : ltail) : Prop :=
+  match es with
+  | [] => match t with
+          | TSusp p => p = q /\ pos_ok rp q
+          | TNil p => p = q /\ pos_ok rp q /\ fst (spec_step rp q) = None
+          end
+  | (p, c) :: r => p = q /\ pos_ok rp q /\ fst (spec_step rp q) = Some c /\ wf_cells rp (snd (spec_step rp q)) r t
+  end.
+
+Definition start (q : pos) : nat := match q with PNum a => a | PEof => len end.
+
+Lemma spec_some rp q c : pos_ok rp q -> fst (spec_step rp q) = Some c ->
+  exists a, q = PNum a /\ a <= len /\ c = chunk a /\ start (snd (spec_step rp q)) = a + length c.
+Proof.
+  destruct q as [a|]; cbn [spec_step pos_ok]; intros H E; [|discriminate E].
+  exists a. destruct (len <=? a) eqn:E1.
+  - destruct rp; cbn [andb fst snd] in *; [discriminate E|]. injection E as <-.
+    apply Nat.leb_le in E1. rewrite (chunk_empty a E1). cbn [start length]. repeat split; auto. lia.
+  - rewrite andb_false_r in *. cbn [fst snd start] in *. injection E as <-. repeat split; auto.
+Qed.
+
+Lemma spec_none rp q : pos_ok rp q -> fst (spec_step rp q) = None -> skipn (start q) cs = [].
+Proof.
+  destruct q as [a|]; cbn [spec_step pos_ok start]; intros H E.
+  - destruct (rp && (len <=? a)) eqn:E1; [|discriminate E].
+    apply andb_true_iff in E1. destruct E1 as [_ E1]. apply Nat.leb_le in E1. apply skipn_all2. exact E1.
+  - apply skipn_all.
+Qed.
+
+Lemma mat_prefix rp : forall es q t, wf_cells rp q es t ->
+  concat (map snd es) = firstn (length (concat (map snd es))) (skipn (start q) cs) /\
+  (forall p, t = TNil p -> concat (map snd es) = skipn (start q) cs).
+Proof.
+  induction es as [|[p c] r IH]; intros q t W; cbn [wf_cells map snd concat] in *.
+  - split; [reflexivity|]. intros p ->. destruct W as (_ & OK & E). symmetry. eapply spec_none; eauto.
+  - destruct W as (-> & OK & E & W). destruct (spec_some rp q c OK E) as (a & -> & La & -> & ST).
+    destruct (IH _ _ W) as [I1 I2]. rewrite ST in I1, I2. cbn [start].
+    split.
+    + rewrite I1 at 1. rewrite app_length. unfold chunk at 1 3.
+      rewrite skipn_add. fold (chunk a).
+      set (X := skipn a cs). unfold chunk. fold X.
+      rewrite <- (firstn_len_firstn ctr X) at 1. rewrite firstn_app_skipn. reflexivity.
+    + intros p' ->. rewrite (I2 p' eq_refl). rewrite skipn_add. unfold chunk.
+      rewrite skipn_len_firstn. apply firstn_skipn.
+Qed.
+
+Lemma wf_app rp : forall es q p es' t', wf_cells rp q es (TSusp p) -> wf_cells rp p es' t' -> wf_cells rp q (es ++ es') t'.
+Proof.
+  induction es as [|[p0 c] r IH]; intros q p es' t' W W'; cbn [wf_cells app] in *.
+  - destruct W as [-> _]. exact W'.
+  - destruct W as (A & B & C & D). repeat split; auto. eapply IH; eauto.
+Qed.
+
+Lemma wf_tail_ok rp : forall es q p, wf_cells rp q es (TSusp p) -> pos_ok rp p.
+Proof.
+  induction es as [|[p0 c] r IH]; intros q p W; cbn [wf_cells] in *.
+  - destruct W as [-> OK]. exact OK.
+  - destruct W as (_ & _ & _ & W). eapply IH; eauto.
+Qed.
+
+Lemma wf_firstn rp : forall es q t j p c, wf_cells rp q es t -> nth_error es j = Some (p, c) -> wf_cells rp q (firstn j es) (TSusp p).
+Proof.
+  induction es as [|[p0 c0] r IH]; intros q t j p c W E.
+  - destruct j; discriminate E.
+  - cbn [wf_cells] in W. destruct W as (A & B & C & D). destruct j as [|j].
+    + cbn [nth_error] in E. injection E as <- <-. cbn [firstn wf_cells]. split; auto.
+    + cbn [nth_error] in E. cbn [firstn wf_cells]. repeat split; auto. eapply IH; eauto.
+Qed.
+
+Lemma wf_retail rp : forall es q t, wf_cells rp q es t -> wf_cells rp q es (TSusp (tail_pos t)).
+Proof.
+  induction es as [|[p0 c0] r IH]; intros q t W; cbn [wf_cells] in *.
+  - destruct t as [p|p]; cbn [tail_pos]; tauto.
+  - destruct W as (A & B & C & D). repeat split; auto.
+Qed.
+
+(* ---------------------------------------------------------------- unfold (forcing) *)
+Lemma unfold_spec rp : forall fuel need p m, Inv rp m -> pos_ok rp p ->
+  match p with PNum _ => need + 2 <= fuel | PEof => 1 <= fuel end ->
+  exists es t m', unfold fuel true rp ctr need p m = (es, t, m') /\ wf_cells rp p es t /\ Inv rp m' /\
+                  (need < length (concat (map snd es)) \/ exists p', t = TNil p').
+Proof.
+  induction fuel as [|f IH]; intros need p m HI OK HF.
+  - destruct p; lia.
+  - cbn [unfold]. destruct (render_step_spec rp p m HI OK) as (m1 & -> & HI1).
+    destruct (fst (spec_step rp p)) as [c|] eqn:E.
+    2:{ exists [], (TNil p), m1. split; [reflexivity|]. split; [cbn [wf_cells]; auto|]. split; [exact HI1|]. right. eauto. }
+    pose proof (spec_step_pos_ok rp p OK) as OK'.
+    destruct (need <? length c) eqn:EN.
+    + apply Nat.ltb_lt in EN. exists [(p, c)], (TSusp (snd (spec_step rp p))), m1. cbn [wf_cells map snd concat].
+      rewrite app_nil_r. split; [reflexivity|]. split; [auto|]. split; [exact HI1|]. left. exact EN.
+    + apply Nat.ltb_ge in EN.
+      assert (HF' : match snd (spec_step rp p) with PNum _ => need - length c + 2 <= f | PEof => 1 <= f end).
+      { destruct p as [a|]; [|discriminate E]. cbn [spec_step] in *.
+        destruct (len <=? a) eqn:E1.
+        - destruct rp; cbn [andb fst snd] in *; [discriminate E|]. lia.
+        - rewrite andb_false_r in *. cbn [fst snd] in *. injection E as <-. apply Nat.leb_gt in E1.
+          pose proof (chunk_nonempty a E1). lia. }
+      destruct (IH (need - length c) _ m1 HI1 OK' HF') as (es & t & m3 & -> & W & HI3 & D).
+      exists ((p, c) :: es), t, m3. cbn [wf_cells map snd concat]. rewrite app_length.
+      split; [reflexivity|]. split; [auto|]. split; [exact HI3|].
+      destruct D as [D|D]; [left; lia|right; exact D].
+Qed.
+
+(* ---------------------------------------------------------------- states *)
+Definition Good (rp : bool) (st : lstate) : Prop :=
+  Inv rp (st_m st) /\ wf_cells rp (PNum 0) (l_cells (st_l st)) (l_tail (st_l st)).
+
+Lemma good_init rp : Good rp (st_init rp cs).
+Proof.
+  split.
+  - split; [reflexivity|]. intros _. unfold buffer_inv. cbn. repeat split; auto. discriminate.
+  - cbn [st_init st_l l_init l_cells l_tail wf_cells]. destruct rp; cbn; split; auto; lia.
+Qed.
+
+Lemma good_mat rp st : Good rp st ->
+  lmat (st_l st) = firstn (length (lmat (st_l st))) cs /\ (lclosed (st_l st) = true -> lmat (st_l st) = cs).
+Proof.
+  intros [_ W]. destruct (mat_prefix rp _ _ _ W) as [A B]. cbn [start skipn] in A, B. unfold lmat, lclosed.
+  split; [exact A|]. destruct (l_tail (st_l st)) as [p|p]; [discriminate|]. intros _. eapply B; eauto.
+Qed.
+
+Lemma demand_spec rp i st : Good rp st ->
+  fst (demand true rp ctr i st) = nth_error cs i /\ Good rp (snd (demand true rp ctr i st)) /\
+  (i < length (lmat (st_l (snd (demand true rp ctr i st)))) \/ lclosed (st_l (snd (demand true rp ctr i st))) = true).
+Proof.
+  intros G. pose proof (good_mat rp st G) as [M1 M2]. unfold demand.
+  destruct (i <? length (lmat (st_l st))) eqn:E.
+  - apply Nat.ltb_lt in E. cbn [fst snd]. split; [|split; [exact G|left; exact E]].
+    rewrite M1. apply nth_error_firstn_lt. exact E.
+  - apply Nat.ltb_ge in E. destruct (l_tail (st_l st)) as [p|p] eqn:ET.
+    2:{ cbn [fst snd]. unfold lclosed in *. rewrite ET in *. split; [|split; [exact G|right; reflexivity]].
+        symmetry. apply nth_error_None. rewrite <- (M2 eq_refl). exact E. }
+    destruct G as [HI W]. rewrite ET in W.
+    pose proof (wf_tail_ok rp _ _ _ W) as OK.
+    assert (HF : match p with PNum _ => i - length (lmat (st_l st)) + 2 <= S (S (i - length (lmat (st_l st)))) | PEof => 1 <= S (S (i - length (lmat (st_l st)))) end)
+      by (destruct p; lia).
+    destruct (unfold_spec rp _ _ p (st_m st) HI OK HF) as (es & t & m' & -> & W' & HI' & D).
+    cbn [fst snd st_l].
+    assert (G' : Good rp (mkSt (mkL (l_cells (st_l st) ++ es) t) m')).
+    { split; [exact HI'|]. cbn [st_l l_cells l_tail]. eapply wf_app; eauto. }
+    pose proof (good_mat rp _ G') as [N1 N2]. cbn [st_l] in N1, N2.
+    assert (HL : length (lmat (mkL (l_cells (st_l st) ++ es) t)) = length (lmat (st_l st)) + length (concat (map snd es))).
+    { unfold lmat. cbn [l_cells]. rewrite map_app, concat_app, app_length. reflexivity. }
+    destruct D as [D|[p' ->]].
+    + assert (HLT : i < length (lmat (mkL (l_cells (st_l st) ++ es) t))) by lia.
+      split; [|split; [exact G'|left; exact HLT]].
+      rewrite N1. apply nth_error_firstn_lt. exact HLT.
+    + split; [|split; [exact G'|right; reflexivity]]. rewrite (N2 eq_refl). reflexivity.
+Qed.
+
+Lemma unforce_good rp j st : Good rp st -> Good rp (unforce j st).
+Proof.
+  intros [HI W]. split; [exact HI|]. unfold unforce, unforce_l. cbn [st_l].
+  destruct (nth_error (l_cells (st_l st)) j) as [[p c]|] eqn:E.
+  - cbn [l_cells l_tail]. eapply wf_firstn; eauto.
+  - destruct (j =? length (l_cells (st_l st))); [|exact W]. cbn [l_cells l_tail]. apply wf_retail. exact W.
+Qed.
+
+Lemma step_good rp st o : Good rp st -> Good rp (step true rp ctr st o).
+Proof.
+  intros G. destruct o as [i|j]; cbn [step]; [apply demand_spec; exact G|apply unforce_good; exact G].
+Qed.
+
+Lemma run_script_good rp : forall ops st, Good rp st -> Good rp (run_script true rp ctr ops st).
+Proof.
+  unfold run_script. induction ops as [|o r IH]; intros st G; cbn [fold_left]; [exact G|]. apply IH. apply step_good. exact G.
+Qed.
+
+Fixpoint demanded (ops : list op) : list nat :=
+  match ops with [] => [] | ODemand i :: r => i :: demanded r | OUndo _ :: r => demanded r end.
+
+Lemma script_answers_spec rp : forall ops st, Good rp st ->
+  script_answers true rp ctr ops st = map (nth_error cs) (demanded ops).
+Proof.
+  induction ops as [|[i|j] r IH]; intros st G; cbn [script_answers demanded map]; [reflexivity| |].
+  - destruct (demand true rp ctr i st) as [x st'] eqn:E. pose proof (demand_spec rp i st G) as (A & B & _).
+    rewrite E in A, B. cbn [fst snd] in A, B. rewrite A. f_equal. apply IH. exact B.
+  - apply IH. apply unforce_good. exact G.
+Qed.
+
+(* ---------------------------------------------------------------- parsers *)
+Definition GoodP (rp : bool) (ps : pstate) : Prop := Good rp (p_st ps).
+
+Lemma run_lazy_spec rp {A} : forall (p : parser A) ps, GoodP rp ps ->
+  fst (run_lazy true rp ctr p ps) = run_list cs p /\ GoodP rp (snd (run_lazy true rp ctr p ps)).
+Proof.
+  induction p as [a| |i k IH|p IHp q IHq|p IHp]; intros ps G; cbn [run_lazy run_list].
+  - split; [reflexivity|exact G].
+  - split; [reflexivity|exact G].
+  - destruct (demand true rp ctr (N.to_nat i) (p_st ps)) as [x st'] eqn:E.
+    pose proof (demand_spec rp (N.to_nat i) (p_st ps) G) as (A1 & B1 & _). rewrite E in A1, B1. cbn [fst snd] in A1, B1.
+    rewrite <- A1. apply IH. exact B1.
+  - destruct (run_lazy true rp ctr p ps) as [xs ps1] eqn:E1.
+    pose proof (IHp ps G) as [A1 B1]. rewrite E1 in A1, B1. cbn [fst snd] in A1, B1.
+    set (ps1' := mkP (unforce _ (p_st ps1)) (p_log ps1)).
+    assert (G1 : GoodP rp ps1') by (apply unforce_good; exact B1).
+    destruct (run_lazy true rp ctr q ps1') as [ys ps2] eqn:E2.
+    pose proof (IHq ps1' G1) as [A2 B2]. rewrite E2 in A2, B2. cbn [fst snd] in *.
+    split; [congruence|exact B2].
+  - apply IHp. exact G.
+Qed.
+
+Lemma run_lazy1_spec rp {A} : forall (p : parser A) ps, GoodP rp ps ->
+  fst (run_lazy1 true rp ctr p ps) = run_list1 cs p /\ GoodP rp (snd (run_lazy1 true rp ctr p ps)).
+Proof.
+  induction p as [a| |i k IH|p IHp q IHq|p IHp]; intros ps G; cbn [run_lazy1 run_list1].
+  - split; [reflexivity|exact G].
+  - split; [reflexivity|exact G].
+  - destruct (demand true rp ctr (N.to_nat i) (p_st ps)) as [x st'] eqn:E.
+    pose proof (demand_spec rp (N.to_nat i) (p_st ps) G) as (A1 & B1 & _). rewrite E in A1, B1. cbn [fst snd] in A1, B1.
+    rewrite <- A1. apply IH. exact B1.
+  - destruct (run_lazy1 true rp ctr p ps) as [[a|] ps1] eqn:E1;
+      pose proof (IHp ps G) as [A1 B1]; rewrite E1 in A1, B1; cbn [fst snd] in A1, B1; rewrite <- A1.
+    + split; [reflexivity|exact B1].
+    + apply IHq. apply unforce_good. exact B1.
+  - apply IHp. exact G.
+Qed.
+
+(* ---------------------------------------------------------------- the cells are a function of the content *)
+Lemma wf_cells_det rp : forall es q t es' t' j e e', wf_cells rp q es t -> wf_cells rp q es' t' ->
+  nth_error es j = Some e -> nth_error es' j = Some e' -> e = e'.
+Proof.
+  induction es as [|[p c] r IH]; intros q t es' t' j e e' W W' E E'.
+  - destruct j; discriminate E.
+  - destruct es' as [|[p' c'] r']; [destruct j; discriminate E'|].
+    cbn [wf_cells] in W, W'. destruct W as (-> & _ & S1 & W). destruct W' as (-> & _ & S2 & W').
+    destruct j as [|j]; cbn [nth_error] in E, E'.
+    + injection E as <-. injection E' as <-. rewrite S1 in S2. injection S2 as <-. reflexivity.
+    + eapply IH; eauto.
+Qed.
+
+Lemma wf_tail_start rp : forall es q p, wf_cells rp q es (TSusp p) -> start p = start q + length (concat (map snd es)).
+Proof.
+  induction es as [|[p0 c] r IH]; intros q p W; cbn [wf_cells map snd concat] in *.
+  - destruct W as [-> _]. cbn [length]. lia.
+  - destruct W as (-> & OK & E & W). destruct (spec_some rp q c OK E) as (a & -> & La & -> & ST).
+    rewrite (IH _ _ W), ST, app_length. cbn [start]. lia.
+Qed.
+
+(* ---------------------------------------------------------------- counting reads, reposition(true) *)
+Lemma render_step_true a m : s_content (m_s m) = cs ->
+  render_step true true ctr (PNum a) m =
+  if len <=? a then (None, PNum a, mkM (mkS cs a (s_reads (m_s m)) (S (s_seeks (m_s m)))) (m_bb m))
+  else (Some (chunk a), PNum (a + length (chunk a)),
+        mkM (mkS cs (a + length (chunk a)) ((a, length (chunk a)) :: s_reads (m_s m)) (S (s_seeks (m_s m)))) (m_bb m)).
+Proof.
+  intros HC. unfold render_step.
+  cbn [set_stream_buffer_position buffer_at_end_of_stream buffer_get_n_chars m_s m_bb].
+  unfold at_end_of_stream, get_n_chars, set_stream_position. cbn [s_content s_pos s_reads m_s m_bb].
+  rewrite HC. fold len. destruct (len <=? a); [reflexivity|].
+  cbn [get_stream_buffer_position m_s s_pos]. fold (chunk a). reflexivity.
+Qed.
+
+Lemma unfold_reads_true : forall fuel need a m, s_content (m_s m) = cs ->
+  forall es t m', unfold fuel true true ctr need (PNum a) m = (es, t, m') ->
+  s_content (m_s m') = cs /\ length (s_reads (m_s m')) = length (s_reads (m_s m)) + length es /\
+  Forall (fun e => exists b, fst e = PNum b /\ b <= a + need) es.
+Proof.
+  induction fuel as [|f IH]; intros need a m HC es t m' E.
+  - cbn [unfold] in E. injection E as <- <- <-. cbn [length]. repeat split; auto.
+  - cbn [unfold] in E. rewrite (render_step_true a m HC) in E. destruct (len <=? a).
+    + injection E as <- <- <-. cbn [length m_s s_content s_reads]. repeat split; auto.
+    + destruct (need <? length (chunk a)) eqn:EN.
+      * injection E as <- <- <-. cbn [length m_s s_content s_reads]. split; [reflexivity|]. split; [lia|].
+        constructor; [|constructor]. exists a. cbn [fst]. split; [reflexivity|lia].
+      * apply Nat.ltb_ge in EN.
+        destruct (unfold f true true ctr (need - length (chunk a)) (PNum (a + length (chunk a))) _) as [[es1 t1] m1] eqn:E1.
+        injection E as <- <- <-.
+        apply IH in E1; [|reflexivity]. destruct E1 as (I1 & I2 & I3). cbn [m_s s_reads length] in I2.
+        split; [exact I1|]. split; [cbn [length]; lia|].
+        constructor.
+        -- exists a. cbn [fst]. split; [reflexivity|lia].
+        -- eapply Forall_impl; [|exact I3]. intros e (b & Hb & Lb). exists b. split; [exact Hb|lia].
+Qed.
+
+Lemma cells_start_true : forall es q0 p c t, wf_cells true (PNum q0) (es ++ [(p, c)]) t -> p = PNum (q0 + ctr * length es).
+Proof.
+  induction es as [|[p0 c0] r IH]; intros q0 p c t W; cbn [app wf_cells] in W.
+  - destruct W as (-> & _). cbn [length]. f_equal. lia.
+  - destruct W as (-> & OK & E & W). cbn [pos_ok] in OK. cbn [spec_step andb] in E, W.
+    destruct (len <=? q0) eqn:E0; [discriminate E|]. cbn [fst snd] in E, W. apply Nat.leb_gt in E0.
+    assert (HN : q0 + length (chunk q0) < len).
+    { destruct r as [|[p1 c1] r1]; cbn [app wf_cells] in W; destruct W as (_ & _ & E1 & _); cbn [spec_step andb] in E1;
+        (destruct (len <=? q0 + length (chunk q0)) eqn:E2; [discriminate E1|apply Nat.leb_gt in E2; exact E2]). }
+    rewrite chunk_length in HN.
+    assert (HL : length (chunk q0) = ctr) by (rewrite chunk_length; lia).
+    rewrite HL in W. rewrite (IH _ _ _ _ W). cbn [length]. f_equal. rewrite Nat.mul_succ_r. lia.
+Qed.
+
+Lemma ceil_bound x k : ctr * x < k -> x + 1 <= ceil_div k ctr.
+Proof.
+  intros H. unfold ceil_div. apply Nat.div_le_lower_bound; [lia|]. rewrite Nat.mul_add_distr_l. lia.
+Qed.
+
+Lemma ceil_bound' x k : ctr * x + 2 <= k + ctr -> x <= ceil_div k ctr.
+Proof.
+  intros H. unfold ceil_div. apply Nat.div_le_lower_bound; lia.
+Qed.
+
+(* the invariant of a run that never backtracks and only asks for cells below k *)
+Definition RT (k : nat) (st : lstate) : Prop :=
+  Good true st /\ n_reads st = length (l_cells (st_l st)) /\
+  Forall (fun e => exists b, fst e = PNum b /\ b < k) (l_cells (st_l st)).
+
+Lemma RT_init k : RT k (st_init true cs).
+Proof. split; [apply good_init|]. split; [reflexivity|constructor]. Qed.
+
+Lemma RT_demand k i st : i < k -> RT k st -> RT k (snd (demand true true ctr i st)).
+Proof.
+  intros Hi (G & R & F). pose proof (demand_spec true i st G) as (_ & G' & _). split; [exact G'|]. clear G'.
+  unfold demand. destruct (i <? length (lmat (st_l st))) eqn:E; [cbn [snd]; auto|]. apply Nat.ltb_ge in E.
+  destruct (l_tail (st_l st)) as [p|p] eqn:ET; [|cbn [snd]; auto].
+  destruct G as [[HC _] W]. rewrite ET in W.
+  pose proof (wf_tail_ok true _ _ _ W) as OK. pose proof (wf_tail_start true _ _ _ W) as ST.
+  destruct p as [a|]; [|discriminate OK]. cbn [start] in ST.
+  destruct (unfold _ true true ctr _ (PNum a) (st_m st)) as [[es t] m'] eqn:EU.
+  apply unfold_reads_true in EU; [|exact HC]. destruct EU as (_ & U2 & U3).
+  cbn [snd st_l l_cells]. unfold n_reads in *. cbn [st_m]. split.
+  - rewrite app_length. lia.
+  - apply Forall_app. split; [exact F|]. eapply Forall_impl; [|exact U3].
+    intros e (b & Hb & Lb). exists b. split; [exact Hb|]. fold (lmat (st_l st)) in ST. lia.
+Qed.
+
+Lemma RT_bound k st : RT k st -> n_reads st <= ceil_div k ctr.
+Proof.
+  intros ([_ W] & R & F). rewrite R. clear R.
+  destruct (l_cells (st_l st)) as [|e0 r0]; [cbn [length]; lia|].
+  assert (NE : e0 :: r0 <> []) by discriminate.
+  destruct (exists_last NE) as (es & [p c] & EQ). rewrite EQ in *.
+  apply cells_start_true in W. apply Forall_app in F. destruct F as [_ F]. inversion F as [|? ? (b & Hb & Lb) _]; subst.
+  cbn [fst] in Hb. injection Hb as <-. rewrite app_length. cbn [length]. apply ceil_bound. lia.
+Qed.
+
+(* ---------------------------------------------------------------- counting reads, reposition(false) *)
+Definition RF (k : nat) (m : mstate) : Prop :=
+  (b_len (m_bb m) = ctr * length (s_reads (m_s m)) \/ b_len (m_bb m) = len) /\
+  length (s_reads (m_s m)) <= ceil_div k ctr + 1.
+
+Lemma binv_read m p rd sk : binv m -> b_len (m_bb m) < len ->
+  binv (mkM (mkS cs (b_len (m_bb m) + length (chunk (b_len (m_bb m)))) rd sk)
+            (mkB (b_buf (m_bb m) ++ chunk (b_len (m_bb m))) false p (b_len (m_bb m) + length (chunk (b_len (m_bb m)))))).
+Proof.
+  intros (B1 & B2 & B3 & B4) E3. pose proof (chunk_length (b_len (m_bb m))) as HCL.
+  unfold binv. cbn [m_s m_bb b_buf b_len b_closed s_pos].
+  assert (EQ : b_buf (m_bb m) ++ chunk (b_len (m_bb m)) = firstn (b_len (m_bb m) + length (chunk (b_len (m_bb m)))) cs).
+  { rewrite B1 at 1. unfold chunk at 1. rewrite firstn_app_skipn.
+    rewrite HCL. destruct (Nat.le_ge_cases ctr (len - b_len (m_bb m))) as [L|L].
+    - rewrite Nat.min_l by exact L. reflexivity.
+    - rewrite Nat.min_r by exact L. rewrite !firstn_all2; auto; fold len; lia. }
+  repeat split.
+  - exact EQ.
+  - rewrite EQ, firstn_length. fold len. lia.
+  - discriminate.
+Qed.
+
+Lemma prepare_reads k q : q < k -> forall fuel m,
+  s_content (m_s m) = cs -> binv m -> b_pos (m_bb m) = PNum q -> RF k m ->
+  RF k (buffer_prepare_for_n fuel ctr ctr m).
+Proof.
+  intros Hq. induction fuel as [|f IH]; intros m HC HB HP HR; [exact HR|].
+  cbn [buffer_prepare_for_n]. rewrite HP.
+  destruct (b_len (m_bb m) <? q + ctr) eqn:E1; [|exact HR].
+  destruct (b_closed (m_bb m)) eqn:E2; [exact HR|].
+  pose proof (binv_len_le m HB) as HL.
+  unfold at_end_of_stream. rewrite HC. fold len. destruct HB as (B1 & B2 & B3 & B4). rewrite B3.
+  destruct (len <=? b_len (m_bb m)) eqn:E3; [exact HR|].
+  apply Nat.leb_gt in E3. apply Nat.ltb_lt in E1. unfold get_n_chars. rewrite HC, B3. fold (chunk (b_len (m_bb m))).
+  cbn zeta. apply IH.
+  - reflexivity.
+  - apply binv_read; [repeat split; auto|exact E3].
+  - reflexivity.
+  - destruct HR as [HR1 HR2]. pose proof (chunk_length (b_len (m_bb m))) as HCL.
+    destruct HR1 as [HR1|HR1]; [|lia].
+    unfold RF. cbn [m_s m_bb b_len s_reads length]. split.
+    + destruct (Nat.le_ge_cases ctr (len - b_len (m_bb m))) as [L|L].
+      * left. rewrite Nat.mul_succ_r. lia.
+      * right. lia.
+    + assert (length (s_reads (m_s m)) <= ceil_div k ctr) by (apply ceil_bound'; lia). lia.
+Qed.
+
+Lemma render_reads_false k p m : Inv false m -> RF k m -> pos_ok false p -> (forall q, p = PNum q -> q < k) ->
+  RF k (snd (render_step true false ctr p m)).
+Proof.
+  intros [HC HI] HR OK Hq. specialize (HI eq_refl). apply buffer_inv_binv in HI. destruct HI as (_ & HB & _).
+  unfold render_step. cbn [set_stream_buffer_position buffer_at_end_of_stream]. cbn [m_bb with_bpos b_pos].
+  destruct p as [q|]; [|exact HR].
+  cbn [pos_ok] in OK. cbn [buffer_get_n_chars].
+  set (m1 := mkM (m_s m) (with_bpos (m_bb m) (PNum q))).
+  assert (HB1 : binv m1) by exact HB.
+  assert (HC1 : s_content (m_s m1) = cs) by exact HC.
+  assert (HP1 : b_pos (m_bb m1) = PNum q) by reflexivity.
+  assert (HF : S (len - b_len (m_bb m1)) <= prepare_fuel m1).
+  { unfold prepare_fuel. rewrite HC1. destruct HB1 as (_ & _ & B3 & _). rewrite B3. fold len. lia. }
+  pose proof (prepare_spec ctr q (prepare_fuel m1) m1 HC1 HB1 HP1 HF) as PS. cbn zeta in PS.
+  assert (HR1 : RF k m1) by exact HR.
+  pose proof (prepare_reads k q (Hq q eq_refl) (prepare_fuel m1) m1 HC1 HB1 HP1 HR1) as PR.
+  set (m2 := buffer_prepare_for_n (prepare_fuel m1) ctr ctr m1) in *.
+  destruct PS as (_ & _ & P3 & _). rewrite P3. cbn [snd]. exact PR.
+Qed.
+
+Lemma unfold_reads_false k : forall fuel need p m, Inv false m -> pos_ok false p -> RF k m -> start p + need < k ->
+  forall es t m', unfold fuel true false ctr need p m = (es, t, m') -> RF k m'.
+Proof.
+  induction fuel as [|f IH]; intros need p m HI OK HR HK es t m' E.
+  - cbn [unfold] in E. injection E as <- <- <-. exact HR.
+  - cbn [unfold] in E.
+    assert (HR1 : RF k (snd (render_step true false ctr p m))).
+    { apply render_reads_false; auto. intros q ->. cbn [start] in HK. lia. }
+    destruct (render_step_spec false p m HI OK) as (m1 & EQ & HI1). rewrite EQ in E, HR1. cbn [snd] in HR1.
+    destruct (fst (spec_step false p)) as [c|] eqn:ES.
+    2:{ injection E as <- <- <-. exact HR1. }
+    destruct (need <? length c) eqn:EN.
+    + injection E as <- <- <-. exact HR1.
+    + apply Nat.ltb_ge in EN.
+      destruct (unfold f true false ctr (need - length c) (snd (spec_step false p)) m1) as [[es1 t1] m3] eqn:E1.
+      injection E as <- <- <-.
+      destruct (spec_some false p c OK ES) as (a & -> & La & -> & ST).
+      eapply IH; [exact HI1|apply spec_step_pos_ok; exact OK|exact HR1| |exact E1].
+      rewrite ST. cbn [start] in HK. lia.
+Qed.
+
+Lemma RF_demand k i st : i < k -> Good false st -> RF k (st_m st) -> RF k (st_m (snd (demand true false ctr i st))).
+Proof.
+  intros Hi G HR. unfold demand.
+  destruct (i <? length (lmat (st_l st))) eqn:E; [exact HR|]. apply Nat.ltb_ge in E.
+  destruct (l_tail (st_l st)) as [p|p] eqn:ET; [|exact HR].
+  destruct G as [HI W]. rewrite ET in W.
+  pose proof (wf_tail_ok false _ _ _ W) as OK. pose proof (wf_tail_start false _ _ _ W) as ST. cbn [start] in ST.
+  fold (lmat (st_l st)) in ST.
+  destruct (unfold _ true false ctr _ p (st_m st)) as [[es t] m'] eqn:EU. cbn [snd st_m].
+  eapply unfold_reads_false; [exact HI|exact OK|exact HR| |exact EU]. lia.
+Qed.
+
+(* ---------------------------------------------------------------- parsers and read counts *)
+Lemma run_lazy_RT k {A} : forall (p : parser A) ps, det_below k p -> RT k (p_st ps) -> RT k (p_st (snd (run_lazy true true ctr p ps))).
+Proof.
+  induction p as [a| |i f IH|p IHp q IHq|p IHp]; intros ps D R; cbn [run_lazy det_below] in *; auto.
+  - destruct D as [Hi D]. destruct (demand true true ctr (N.to_nat i) (p_st ps)) as [x st'] eqn:E.
+    apply IH; [apply D|]. cbn [p_st]. pose proof (RT_demand k (N.to_nat i) (p_st ps) Hi R) as R'. rewrite E in R'. exact R'.
+  - destruct D.
+Qed.
+
+Lemma run_lazy1_RT k {A} : forall (p : parser A) ps, det_below k p -> RT k (p_st ps) -> RT k (p_st (snd (run_lazy1 true true ctr p ps))).
+Proof.
+  induction p as [a| |i f IH|p IHp q IHq|p IHp]; intros ps D R; cbn [run_lazy1 det_below] in *; auto.
+  - destruct D as [Hi D]. destruct (demand true true ctr (N.to_nat i) (p_st ps)) as [x st'] eqn:E.
+    apply IH; [apply D|]. cbn [p_st]. pose proof (RT_demand k (N.to_nat i) (p_st ps) Hi R) as R'. rewrite E in R'. exact R'.
+  - destruct D.
+Qed.
+
+Definition GF (k : nat) (ps : pstate) : Prop := Good false (p_st ps) /\ RF k (st_m (p_st ps)).
+
+Lemma run_lazy_RF k {A} : forall (p : parser A) ps, gets_below k p -> GF k ps -> GF k (snd (run_lazy true false ctr p ps)).
+Proof.
+  induction p as [a| |i f IH|p IHp q IHq|p IHp]; intros ps D [G R]; cbn [run_lazy gets_below] in *; try (split; assumption).
+  - destruct D as [Hi D]. destruct (demand true false ctr (N.to_nat i) (p_st ps)) as [x st'] eqn:E.
+    apply IH; [apply D|]. split; cbn [p_st].
+    + pose proof (demand_spec false (N.to_nat i) (p_st ps) G) as (_ & G' & _). rewrite E in G'. exact G'.
+    + pose proof (RF_demand k (N.to_nat i) (p_st ps) Hi G R) as R'. rewrite E in R'. exact R'.
+  - destruct D as [D1 D2]. destruct (run_lazy true false ctr p ps) as [xs ps1] eqn:E1.
+    pose proof (IHp ps D1 (conj G R)) as [G1 R1]. rewrite E1 in G1, R1. cbn [snd] in G1, R1.
+    set (ps1' := mkP (unforce _ (p_st ps1)) (p_log ps1)).
+    assert (GF1 : GF k ps1') by (split; [apply unforce_good; exact G1|exact R1]).
+    destruct (run_lazy true false ctr q ps1') as [ys ps2] eqn:E2.
+    pose proof (IHq ps1' D2 GF1) as H2. rewrite E2 in H2. exact H2.
+  - apply IHp; [exact D|]. split; assumption.
+Qed.
+
+Lemma run_lazy1_RF k {A} : forall (p : parser A) ps, gets_below k p -> GF k ps -> GF k (snd (run_lazy1 true false ctr p ps)).
+Proof.
+  induction p as [a| |i f IH|p IHp q IHq|p IHp]; intros ps D [G R]; cbn [run_lazy1 gets_below] in *; try (split; assumption).
+  - destruct D as [Hi D]. destruct (demand true false ctr (N.to_nat i) (p_st ps)) as [x st'] eqn:E.
+    apply IH; [apply D|]. split; cbn [p_st].
+    + pose proof (demand_spec false (N.to_nat i) (p_st ps) G) as (_ & G' & _). rewrite E in G'. exact G'.
+    + pose proof (RF_demand k (N.to_nat i) (p_st ps) Hi G R) as R'. rewrite E in R'. exact R'.
+  - destruct D as [D1 D2]. pose proof (IHp ps D1 (conj G R)) as [G1 R1].
+    destruct (run_lazy1 true false ctr p ps) as [[a|] ps1] eqn:E1; cbn [snd] in G1, R1.
+    + split; assumption.
+    + apply IHq; [exact D2|]. split; [apply unforce_good; exact G1|exact R1].
+  - apply IHp; [exact D|]. split; assumption.
+Qed.
+
+Lemma RF_init k : RF k (m_init cs).
+Proof. unfold RF. cbn. split; [left|]; lia. Qed.
+
 End Mirror.
+
+(* ================================================================== the statements pinned in Props.v *)
+Definition reach (rp : bool) (n : nat) (cs : list N) (ops : list op) : lstate :=
+  run_script true rp n ops (st_init rp cs).
+
+Lemma reach_good rp n cs ops : 0 < n -> Good cs n rp (reach rp n cs ops).
+Proof. intros Hn. apply (run_script_good cs n Hn rp). apply good_init. exact Hn. Qed.
+
+Lemma seq_answers cs : forall k a, a + k <= length cs -> map (nth_error cs) (seq a k) = map (@Some N) (firstn k (skipn a cs)).
+Proof.
+  induction k as [|k IH]; intros a H; [reflexivity|].
+  cbn [seq map]. assert (HS : exists x, nth_error cs a = Some x /\ skipn a cs = x :: skipn (S a) cs).
+  { clear IH. revert a H. induction cs as [|y l IHl]; intros a H; [cbn [length] in H; lia|].
+    destruct a as [|a]; [exists y; split; reflexivity|]. cbn [nth_error]. cbn [length] in H.
+    destruct (IHl a) as (x & E1 & E2); [lia|]. exists x. split; [exact E1|]. exact E2. }
+  destruct HS as (x & E1 & E2). rewrite E1, E2. cbn [firstn map]. f_equal. apply IH. lia.
+Qed.
+
+Lemma demanded_map_seq a k : demanded (map ODemand (seq a k)) = seq a k.
+Proof. revert a. induction k as [|k IH]; intros a; [reflexivity|]. cbn [seq map demanded]. f_equal. apply IH. Qed.
+
+(* forced_list_is_content *)
+Lemma forced_list_is_content_l : forall (rp : bool) (n : nat) (cs : list N) (ops : list op), 0 < n ->
+  let st := reach rp n cs ops in
+  lmat (st_l st) = firstn (length (lmat (st_l st))) cs /\
+  (lclosed (st_l st) = true -> lmat (st_l st) = cs) /\
+  (forall i, fst (demand true rp n i st) = nth_error cs i) /\
+  (forall k, k <= length cs -> script_answers true rp n (map ODemand (seq 0 k)) st = map (@Some N) (firstn k cs)) /\
+  (let st' := snd (demand true rp n (length cs) st) in
+   fst (demand true rp n (length cs) st) = None /\ lmat (st_l st') = cs /\ lclosed (st_l st') = true).
+Proof.
+  intros rp n cs ops Hn st. pose proof (reach_good rp n cs ops Hn) as G. fold st in G.
+  pose proof (good_mat cs n Hn rp st G) as [M1 M2].
+  split; [exact M1|]. split; [exact M2|]. split; [|split].
+  - intros i. apply (demand_spec cs n Hn rp i st G).
+  - intros k Hk. rewrite (script_answers_spec cs n Hn rp _ st G), demanded_map_seq.
+    rewrite seq_answers by (cbn; exact Hk). reflexivity.
+  - pose proof (demand_spec cs n Hn rp (length cs) st G) as (A & G' & D). cbn zeta.
+    pose proof (good_mat cs n Hn rp _ G') as [N1 N2].
+    assert (C : lclosed (st_l (snd (demand true rp n (length cs) st))) = true).
+    { destruct D as [D|D]; [|exact D]. rewrite N1 in D. rewrite firstn_length in D. lia. }
+    split; [rewrite A; apply nth_error_None; lia|]. split; [apply N2; exact C|exact C].
+Qed.
+
+Lemma force_all_content rp n cs : 0 < n -> lmat (st_l (force_all rp n cs)) = cs /\ lclosed (st_l (force_all rp n cs)) = true.
+Proof.
+  intros Hn. pose proof (forced_list_is_content_l rp n cs [] Hn) as (_ & _ & _ & _ & H). cbn zeta in H. apply H.
+Qed.
+
+(* chunk_size_irrelevant *)
+Lemma chunk_size_irrelevant_l : forall (rp1 rp2 : bool) (n1 n2 : nat) (cs : list N) (ops1 ops2 : list op), 0 < n1 -> 0 < n2 ->
+  lmat (st_l (force_all rp1 n1 cs)) = lmat (st_l (force_all rp2 n2 cs)) /\
+  script_answers true rp1 n1 ops1 (st_init rp1 cs) = map (nth_error cs) (demanded ops1) /\
+  (demanded ops1 = demanded ops2 ->
+   script_answers true rp1 n1 ops1 (st_init rp1 cs) = script_answers true rp2 n2 ops2 (st_init rp2 cs)).
+Proof.
+  intros rp1 rp2 n1 n2 cs ops1 ops2 H1 H2.
+  destruct (force_all_content rp1 n1 cs H1) as [A1 _]. destruct (force_all_content rp2 n2 cs H2) as [A2 _].
+  split; [congruence|].
+  pose proof (script_answers_spec cs n1 H1 rp1 ops1 _ (good_init cs n1 H1 rp1)) as S1.
+  pose proof (script_answers_spec cs n2 H2 rp2 ops2 _ (good_init cs n2 H2 rp2)) as S2.
+  split; [exact S1|]. intros E. rewrite S1, S2, E. reflexivity.
+Qed.
+
+(* backtracking_reforce_same *)
+Lemma backtracking_reforce_same_l : forall (rp : bool) (n : nat) (cs : list N) (ops1 ops2 : list op) (j : nat), 0 < n ->
+  let st1 := reach rp n cs ops1 in
+  let st2 := reach rp n cs (ops1 ++ OUndo j :: ops2) in
+  (forall k e1 e2, nth_error (l_cells (st_l st1)) k = Some e1 -> nth_error (l_cells (st_l st2)) k = Some e2 -> e1 = e2) /\
+  (forall i, fst (demand true rp n i st1) = fst (demand true rp n i st2)) /\
+  script_answers true rp n (ops1 ++ OUndo j :: ops2) (st_init rp cs) = map (nth_error cs) (demanded (ops1 ++ OUndo j :: ops2)).
+Proof.
+  intros rp n cs ops1 ops2 j Hn st1 st2.
+  pose proof (reach_good rp n cs ops1 Hn) as G1. pose proof (reach_good rp n cs (ops1 ++ OUndo j :: ops2) Hn) as G2.
+  fold st1 in G1. fold st2 in G2. split; [|split].
+  - intros k e1 e2 E1 E2. destruct G1 as [_ W1]. destruct G2 as [_ W2]. exact (wf_cells_det cs n rp _ _ _ _ _ k e1 e2 W1 W2 E1 E2).
+  - intros i. rewrite (proj1 (demand_spec cs n Hn rp i st1 G1)), (proj1 (demand_spec cs n Hn rp i st2 G2)). reflexivity.
+  - apply (script_answers_spec cs n Hn). apply good_init. exact Hn.
+Qed.
+
+(* without the set_stream_position/2 call of render_step the same script gives a wrong answer *)
+Definition refute_content : list N := [1; 2; 3; 4]%N.
+Definition refute_script : list op := [ODemand 0; ODemand 2; OUndo 0; ODemand 0].
+
+Lemma backtracking_reforce_same_refuted_l :
+  script_answers false true 2 refute_script (st_init true refute_content) = [Some 1%N; Some 3%N; None] /\
+  script_answers true true 2 refute_script (st_init true refute_content) = [Some 1%N; Some 3%N; Some 1%N] /\
+  script_answers false true 2 refute_script (st_init true refute_content) <> map (nth_error refute_content) (demanded refute_script).
+Proof. split; [vm_compute; reflexivity|]. split; [vm_compute; reflexivity|]. vm_compute. discriminate. Qed.
+
+(* phrase_lazy_eq_phrase_list *)
+Lemma phrase_lazy_eq_phrase_list_l : forall (A : Type) (p : parser A) (rp : bool) (n : nat) (cs : list N) (ops : list op) (log : list (nat * nat)),
+  0 < n ->
+  fst (run_lazy true rp n p (mkP (reach rp n cs ops) log)) = run_list cs p /\
+  fst (run_lazy1 true rp n p (mkP (reach rp n cs ops) log)) = run_list1 cs p.
+Proof.
+  intros A p rp n cs ops log Hn. pose proof (reach_good rp n cs ops Hn) as G. split.
+  - apply (run_lazy_spec cs n Hn rp p). exact G.
+  - apply (run_lazy1_spec cs n Hn rp p). exact G.
+Qed.
+
+(* stops_early_reads_bounded, reposition(true) *)
+Lemma stops_early_reads_bounded_l : forall (A : Type) (p : parser A) (k n : nat) (cs : list N), 0 < n -> det_below k p ->
+  n_reads (p_st (snd (run_lazy true true n p (mkP (st_init true cs) [])))) <= ceil_div k n /\
+  n_reads (p_st (snd (run_lazy1 true true n p (mkP (st_init true cs) [])))) <= ceil_div k n.
+Proof.
+  intros A p k n cs Hn D. split; apply (RT_bound cs n Hn k).
+  - apply (run_lazy_RT cs n Hn k p _ D). apply RT_init. exact Hn.
+  - apply (run_lazy1_RT cs n Hn k p _ D). apply RT_init. exact Hn.
+Qed.
+
+(* stops_early_reads_bounded, reposition(false): any parser, backtracking included; plus the buffer invariant *)
+Lemma buffered_reads_bounded_l : forall (A : Type) (p : parser A) (k n : nat) (cs : list N), 0 < n -> gets_below k p ->
+  let st := p_st (snd (run_lazy true false n p (mkP (st_init false cs) []))) in
+  let st1 := p_st (snd (run_lazy1 true false n p (mkP (st_init false cs) []))) in
+  n_reads st <= ceil_div k n + 1 /\ buffer_inv cs (st_m st) /\
+  n_reads st1 <= ceil_div k n + 1 /\ buffer_inv cs (st_m st1).
+Proof.
+  intros A p k n cs Hn D st st1.
+  assert (G0 : GF cs n k (mkP (st_init false cs) [])) by (split; [apply good_init; exact Hn|apply RF_init; exact Hn]).
+  pose proof (run_lazy_RF cs n Hn k p _ D G0) as [[[_ I] _] [_ R]].
+  pose proof (run_lazy1_RF cs n Hn k p _ D G0) as [[[_ I1] _] [_ R1]].
+  split; [exact R|]. split; [apply I; reflexivity|]. split; [exact R1|apply I1; reflexivity].
+Qed.
+
+Lemma buffer_invariant_l : forall (n : nat) (cs : list N) (ops : list op), 0 < n ->
+  buffer_inv cs (st_m (reach false n cs ops)).
+Proof. intros n cs ops Hn. destruct (reach_good false n cs ops Hn) as [[_ I] _]. apply I. reflexivity. Qed.
+
+(* ================================================================== run_fast = run_lazy *)
+Section Fast.
+Variable cs : list N.
+Variable ctr : nat.
+Hypothesis Hctr : 0 < ctr.
+Variable rp : bool.
+
+Definition FV (fs : fstate) : Prop :=
+  Good cs ctr rp (p_st (f_ps fs)) /\
+  f_suf fs = firstn (length (f_suf fs)) (skipn (N.to_nat (f_b fs)) cs) /\
+  f_ml fs = N.of_nat (length (lmat (st_l (p_st (f_ps fs))))).
+
+Lemma prefix_skipn {A} : forall k (l s : list A), s = firstn (length s) l -> skipn k s = firstn (length (skipn k s)) (skipn k l).
+Proof.
+  induction k as [|k IH]; intros l s H; [exact H|].
+  destruct s as [|x s]; [reflexivity|]. destruct l as [|y l]; [discriminate H|].
+  cbn [length firstn] in H. injection H as -> H. cbn [skipn]. apply IH. exact H.
+Qed.
+
+Lemma prefix_nth {A} : forall k (l s : list A) x r, s = firstn (length s) l -> skipn k s = x :: r -> nth_error l k = Some x.
+Proof.
+  induction k as [|k IH]; intros l s x r H E.
+  - cbn [skipn] in E. subst s. destruct l as [|y l]; [discriminate H|]. cbn [length firstn] in H. injection H as -> _. reflexivity.
+  - destruct s as [|z s]; [discriminate E|]. destruct l as [|y l]; [discriminate H|].
+    cbn [length firstn] in H. injection H as _ H. cbn [skipn] in E. cbn [nth_error]. eapply IH; eauto.
+Qed.
+
+Lemma nth_error_skipn_add {A} : forall b k (l : list A), nth_error (skipn b l) k = nth_error l (b + k).
+Proof.
+  induction b as [|b IH]; intros k l; [reflexivity|]. destruct l as [|y l]; [destruct k; reflexivity|]. cbn [skipn plus nth_error]. apply IH.
+Qed.
+
+Lemma fdemand_slow_eq i fs : FV fs ->
+  demand true rp ctr (N.to_nat i) (p_st (f_ps fs)) = (fst (fdemand_slow true rp ctr i fs), p_st (f_ps (snd (fdemand_slow true rp ctr i fs)))) /\
+  p_log (f_ps (snd (fdemand_slow true rp ctr i fs))) = p_log (f_ps fs) /\ FV (snd (fdemand_slow true rp ctr i fs)).
+Proof.
+  intros (G & _ & _). unfold fdemand_slow.
+  pose proof (demand_spec cs ctr Hctr rp (N.to_nat i) _ G) as (_ & G' & _).
+  destruct (demand true rp ctr (N.to_nat i) (p_st (f_ps fs))) as [x st'] eqn:E. cbn [fst snd f_ps p_st p_log] in *.
+  split; [reflexivity|]. split; [reflexivity|]. split; [exact G'|]. cbn [f_suf f_b f_ml f_ps p_st]. split; [|reflexivity].
+  pose proof (good_mat cs ctr Hctr rp st' G') as [M _].
+  rewrite <- (skipn_O cs) in M. apply (prefix_skipn (N.to_nat i)) in M. rewrite <- skipn_add in M. rewrite Nat.add_0_l in M. exact M.
+Qed.
+
+Lemma fdemand_eq i fs : FV fs ->
+  demand true rp ctr (N.to_nat i) (p_st (f_ps fs)) = (fst (fdemand true rp ctr i fs), p_st (f_ps (snd (fdemand true rp ctr i fs)))) /\
+  p_log (f_ps (snd (fdemand true rp ctr i fs))) = p_log (f_ps fs) /\ FV (snd (fdemand true rp ctr i fs)).
+Proof.
+  intros V. unfold fdemand.
+  destruct ((f_b fs <=? i)%N && (i <? f_ml fs)%N) eqn:E; [|apply fdemand_slow_eq; exact V].
+  destruct (skipn (N.to_nat (i - f_b fs)) (f_suf fs)) as [|x r] eqn:ES; [apply fdemand_slow_eq; exact V|].
+  apply andb_true_iff in E. destruct E as [E1 E2]. apply N.leb_le in E1. apply N.ltb_lt in E2.
+  destruct V as (G & P & ML). cbn [fst snd f_ps p_st p_log].
+  pose proof (prefix_nth _ _ _ _ _ P ES) as NX.
+  assert (HN : nth_error cs (N.to_nat i) = Some x).
+  { rewrite <- NX. rewrite nth_error_skipn_add. f_equal. lia. }
+  split; [|split; [reflexivity|]].
+  - pose proof (demand_spec cs ctr Hctr rp (N.to_nat i) _ G) as (A & _ & _).
+    unfold demand in *.
+    assert (E3 : (N.to_nat i <? length (lmat (st_l (p_st (f_ps fs))))) = true) by (apply Nat.ltb_lt; lia).
+    rewrite E3 in *. cbn [fst] in A. rewrite A, HN. reflexivity.
+  - split; [exact G|]. cbn [f_suf f_b f_ml f_ps p_st]. split; [|exact ML].
+    pose proof (prefix_skipn (N.to_nat (i - f_b fs)) _ _ P) as Q. rewrite ES in Q. rewrite <- skipn_add in Q.
+    replace (N.to_nat (f_b fs) + N.to_nat (i - f_b fs)) with (N.to_nat i) in Q by lia. exact Q.
+Qed.
+
+Lemma funforce_FV mark saved fs : FV saved -> FV fs ->
+  f_ps (funforce mark saved fs) = mkP (unforce mark (p_st (f_ps fs))) (p_log (f_ps fs)) /\ FV (funforce mark saved fs).
+Proof.
+  intros (_ & PS & _) (G & _ & ML). unfold funforce. cbn [f_ps]. split; [reflexivity|].
+  split; [cbn [f_ps p_st]; apply unforce_good; exact G|]. cbn [f_suf f_b f_ml f_ps p_st]. split; [exact PS|].
+  destruct (mark <? length (l_cells (st_l (p_st (f_ps fs))))) eqn:E; [reflexivity|].
+  apply Nat.ltb_ge in E. rewrite ML. unfold unforce, unforce_l. cbn [st_l].
+  rewrite (proj2 (nth_error_None _ _) E).
+  destruct (mark =? length (l_cells (st_l (p_st (f_ps fs))))); reflexivity.
+Qed.
+
+Lemma run_fast_eq {A} : forall (p : parser A) fs, FV fs ->
+  run_lazy true rp ctr p (f_ps fs) = (fst (run_fast true rp ctr p fs), f_ps (snd (run_fast true rp ctr p fs))) /\
+  FV (snd (run_fast true rp ctr p fs)).
+Proof.
+  induction p as [a| |i k IH|p IHp q IHq|p IHp]; intros fs V; cbn [run_lazy run_fast].
+  - split; [reflexivity|exact V].
+  - split; [reflexivity|exact V].
+  - pose proof (fdemand_eq i fs V) as (E & L & V'). rewrite E.
+    destruct (fdemand true rp ctr i fs) as [x fs'] eqn:EF. cbn [fst snd] in *.
+    specialize (IH x fs' V'). destruct IH as [IH1 IH2].
+    replace (mkP (p_st (f_ps fs')) (p_log (f_ps fs))) with (f_ps fs') by (rewrite <- L; destruct (f_ps fs'); reflexivity).
+    split; [exact IH1|exact IH2].
+  - destruct (IHp fs V) as [E1 V1]. rewrite E1.
+    destruct (run_fast true rp ctr p fs) as [xs fs1] eqn:EF1. cbn [fst snd] in *.
+    pose proof (funforce_FV (length (l_cells (st_l (p_st (f_ps fs))))) fs fs1 V V1) as [EU VU].
+    rewrite <- EU. destruct (IHq _ VU) as [E2 V2]. rewrite E2.
+    destruct (run_fast true rp ctr q _) as [ys fs2] eqn:EF2. cbn [fst snd] in *. split; [reflexivity|exact V2].
+  - set (fs' := mkF _ (f_b fs) (f_suf fs) (f_ml fs)).
+    assert (V' : FV fs') by exact V.
+    destruct (IHp fs' V') as [E1 V1]. split; [exact E1|exact V1].
+Qed.
+
+Lemma f_init_FV : FV (f_init rp cs).
+Proof. split; [apply good_init; exact Hctr|]. split; reflexivity. Qed.
+End Fast.
+
+(* the evaluator used by the correspondence computes what the mirror computes, and its answers are those of the
+   grammar on the plain list *)
+Lemma run_fast_is_run_lazy_l : forall (A : Type) (p : parser A) (rp : bool) (n : nat) (cs : list N), 0 < n ->
+  run_lazy true rp n p (mkP (st_init rp cs) []) =
+    (fst (run_fast true rp n p (f_init rp cs)), f_ps (snd (run_fast true rp n p (f_init rp cs)))) /\
+  fst (run_fast true rp n p (f_init rp cs)) = run_list cs p.
+Proof.
+  intros A p rp n cs Hn. pose proof (run_fast_eq cs n Hn rp p (f_init rp cs) (f_init_FV cs n Hn rp)) as [E _].
+  split; [exact E|]. pose proof (phrase_lazy_eq_phrase_list_l A p rp n cs [] [] Hn) as [L _].
+  unfold reach, run_script in L. cbn [fold_left] in L. cbn [f_init f_ps] in E. rewrite E in L. exact L.
+Qed.
